@@ -183,7 +183,9 @@ impl<L: Language, N: Analysis<L>> EGraph<L, N> {
                 m.insert(x, Slot::fresh());
             }
         }
-        let bij = bij.compose(&m);
+        // `m` may have more keys than `bij` has values: after a child class lost a slot, the re-added e-node no
+        // longer mentions every slot of its class (determine_self_symmetries below then shrinks the class).
+        let bij = bij.compose_partial(&m);
         let t = (sh, bij);
         self.raw_add_to_class(i.id, t.clone(), src_id);
 
